@@ -1,6 +1,9 @@
 (** Extraction of the executable models for the correspondence check (ExtrOcamlBasic only:
-    bool, option, unit, prod, list, sumbool map to OCaml's; N/positive/nat/Z stay extracted datatypes). *)
+    bool, option, unit, prod, list, sumbool map to OCaml's; N/positive/nat/Z stay extracted datatypes).
+    Separate extraction: one OCaml module per Coq module, so model names never clash. *)
 From Coq Require Import ExtrOcamlBasic NArith List.
-From XV Require Import Conc.Lts Conc.Ev Model.ChaseDefs.
+From XV Require Import Conc.Lts Conc.Ev Model.ChaseDefs Model.SeqlockDefs.
 Extraction Language OCaml.
-Extraction "xm.ml" Lts.run ChaseDefs.step ChaseDefs.init N.of_nat N.to_nat.
+Separate Extraction Lts.run N.of_nat N.to_nat
+  ChaseDefs.step ChaseDefs.init
+  SeqlockDefs.step SeqlockDefs.init SeqlockDefs.pat_words SeqlockDefs.pat_func SeqlockDefs.pat_find.
